@@ -45,7 +45,27 @@ fn garbage(fmt: &str, rng: &mut StdRng) -> String {
         (f.statement.brackets.0, f.statement.brackets.1),
         (f.compound.brackets.0, f.compound.brackets.1),
     ];
-    match rng.gen_range(0..10) {
+    match rng.gen_range(0..14) {
+        // the real formatter's text of a random well-formed value with one to four random edits: near-valid input
+        10..=13 => {
+            let (v, _) = rand_value(fmt, rng);
+            let text = match crate::proj::narsese_of(&v) { Ok(n) => f.format_narsese(&n), Err(_) => String::from("a") };
+            let mut cs: Vec<char> = text.chars().collect();
+            for _ in 0..rng.gen_range(1..=4) {
+                if cs.is_empty() { break; }
+                let i = rng.gen_range(0..cs.len());
+                match rng.gen_range(0..7) {
+                    0 => { cs.remove(i); }
+                    1 => { let t: Vec<char> = toks.choose(rng).unwrap().chars().collect(); cs.splice(i..i, t); }
+                    2 => { let t: Vec<char> = toks.choose(rng).unwrap().chars().collect(); cs.splice(i..=i, t); }
+                    3 => { cs.truncate(i); }
+                    4 => { if i + 1 < cs.len() { cs.swap(i, i + 1); } }
+                    5 => { let j = rng.gen_range(i..cs.len().min(i + 12)); let d: Vec<char> = cs[i..=j].to_vec(); cs.splice(i..i, d); }
+                    _ => { let j = rng.gen_range(i..cs.len().min(i + 12)); cs.drain(i..=j); }
+                }
+            }
+            clip(cs.into_iter().collect(), 768)
+        }
         // token soup of random length
         0 | 1 => {
             let n = rng.gen_range(1..120);
@@ -129,6 +149,122 @@ fn garbage(fmt: &str, rng: &mut StdRng) -> String {
     }
 }
 
+// ---------------------------------------------------------------- random well-formed enum values
+const NAME_PARTS: [&str; 28] = ["a", "b", "word", "x1", "A_b", "go", "to", "SELF", "robin", "é", "Ω", "词", "项", "名", "甲", "乙", "²", "２", "٣", "½", "①",
+    "Z", "q7", "_", "k9", "long", "naïve", "ß"];
+
+thread_local! { static ASCII_ONLY: std::cell::Cell<bool> = std::cell::Cell::new(false); static NODES: std::cell::Cell<usize> = std::cell::Cell::new(0);
+    static EXOTIC: std::cell::Cell<bool> = std::cell::Cell::new(false); }
+
+fn rand_name(fmt: &str, rng: &mut StdRng) -> (String, bool) {
+    let f = enum_format(fmt);
+    let ascii_only = ASCII_ONLY.with(|c| c.get());
+    loop {
+        let n_parts = *[1usize, 1, 1, 2, 2, 3, 5, 12, 30].choose(rng).unwrap();
+        let mut s = String::new();
+        for i in 0..n_parts {
+            if i > 0 && rng.gen_bool(0.25) {
+                s.push(if rng.gen_bool(0.5) { '-' } else { '_' });
+            }
+            let part = NAME_PARTS.choose(rng).unwrap();
+            s.push_str(if ascii_only && !part.is_ascii() { "w" } else { part });
+        }
+        if rng.gen_bool(0.1) {
+            s = format!("{}{}", rng.gen_range(0..100000u32), s);
+        }
+        let exotic = !ascii_only && rng.gen_bool(0.03);
+        if exotic {
+            EXOTIC.with(|c| c.set(true));
+            s.push_str(["\u{1d4b3}", "\u{1f600}", "\u{20000}", "\u{e0100}"].choose(rng).unwrap());
+        }
+        // well-formed by C01's definition, for this format
+        let prefixes = [f.atom.prefix_placeholder, f.atom.prefix_variable_independent, f.atom.prefix_variable_dependent, f.atom.prefix_variable_query,
+                        f.atom.prefix_interval, f.atom.prefix_operator];
+        let ok = !s.is_empty() && s.chars().all(|c| (f.is_valid_atom_name)(c)) && !s.starts_with('-') && !s.ends_with('-') && !s.starts_with('_')
+            && !prefixes.iter().any(|p| !p.is_empty() && s.starts_with(p)) && !f.copulas().iter().any(|c| s.contains(c));
+        if ok {
+            let ascii_safe = s.chars().all(|c| c.is_ascii_alphanumeric() || c == '_' || c == '-');
+            return (s, ascii_safe);
+        }
+    }
+}
+
+fn rand_unit(rng: &mut StdRng) -> String {
+    let x: f64 = match rng.gen_range(0..8) {
+        0 => 0.0,
+        1 => 1.0,
+        2 => rng.gen::<f64>(),
+        3 => (rng.gen_range(0..=1000u32) as f64) / 1000.0,
+        4 => 10f64.powi(-rng.gen_range(1..300)),
+        5 => 1.0 - 2f64.powi(-rng.gen_range(1..53)),
+        6 => f64::from_bits(rng.gen_range(1..0x3ff0_0000_0000_0000u64)),
+        _ => (rng.gen_range(0..=100u32) as f64) / 100.0,
+    };
+    x.to_string()
+}
+
+fn rand_term(fmt: &str, rng: &mut StdRng, depth: usize, ascii_safe: &mut bool) -> serde_json::Value {
+    let atom = |rng: &mut StdRng, ascii_safe: &mut bool| -> serde_json::Value {
+        match rng.gen_range(0..9) {
+            0 => json!({"k":"Interval","n": match rng.gen_range(0..4) { 0 => rng.gen_range(0..100u64).to_string(), 1 => u64::MAX.to_string(), 2 => rng.gen::<u64>().to_string(), _ => rng.gen::<u32>().to_string() }}),
+            k => {
+                let (n, safe) = rand_name(fmt, rng);
+                *ascii_safe &= safe;
+                json!({"k": (["Word", "Word", "Word", "Word", "VariableIndependent", "VariableDependent", "VariableQuery", "Operator", "Word"][k]), "n": n})
+            }
+        }
+    };
+    let spent = NODES.with(|c| { c.set(c.get() + 1); c.get() });
+    if depth == 0 || spent > 40 || rng.gen_bool(0.3) {
+        return atom(rng, ascii_safe);
+    }
+    let mut kids = |rng: &mut StdRng, lo: usize, hi: usize, ascii_safe: &mut bool| -> Vec<serde_json::Value> {
+        let n = rng.gen_range(lo..=hi);
+        (0..n).map(|_| rand_term(fmt, rng, depth - 1, ascii_safe)).collect()
+    };
+    match rng.gen_range(0..30) {
+        0..=6 => json!({"k": (["SetExtension", "SetIntension", "IntersectionExtension", "IntersectionIntension", "Conjunction", "Disjunction", "ConjunctionParallel"][rng.gen_range(0..7)]), "s": kids(rng, 1, 5, ascii_safe)}),
+        7 | 8 => json!({"k": (["Product", "ConjunctionSequential"][rng.gen_range(0..2)]), "q": kids(rng, 1, 5, ascii_safe)}),
+        9 | 10 => {
+            let q = kids(rng, 0, 4, ascii_safe);
+            let i = rng.gen_range(0..=q.len());
+            json!({"k": (["ImageExtension", "ImageIntension"][rng.gen_range(0..2)]), "i": i, "q": q})
+        }
+        11 => json!({"k":"Negation","a": rand_term(fmt, rng, depth - 1, ascii_safe)}),
+        12 | 13 => json!({"k": (["DifferenceExtension", "DifferenceIntension"][rng.gen_range(0..2)]), "a": rand_term(fmt, rng, depth - 1, ascii_safe), "b": rand_term(fmt, rng, depth - 1, ascii_safe)}),
+        _ => json!({"k": (["Inheritance", "Similarity", "Implication", "Equivalence", "ImplicationPredictive", "ImplicationConcurrent", "ImplicationRetrospective",
+                          "EquivalencePredictive", "EquivalenceConcurrent"][rng.gen_range(0..9)]),
+                    "a": rand_term(fmt, rng, depth - 1, ascii_safe), "b": rand_term(fmt, rng, depth - 1, ascii_safe)}),
+    }
+}
+
+fn rand_value(fmt: &str, rng: &mut StdRng) -> (serde_json::Value, bool) {
+    let mut safe = true;
+    ASCII_ONLY.with(|c| c.set(rng.gen_bool(0.4)));
+    NODES.with(|c| c.set(0));
+    EXOTIC.with(|c| c.set(false));
+    let depth = *[0usize, 1, 2, 2, 3, 3, 4, 6].choose(rng).unwrap();
+    let t = rand_term(fmt, rng, depth, &mut safe);
+    let v = match rng.gen_range(0..3) {
+        0 => json!({"kind":"term","v":t}),
+        k => {
+            let p = ["Judgement", "Goal", "Question", "Quest"][rng.gen_range(0..4)];
+            let st = match rng.gen_range(0..6) {
+                0 => json!({"k":"Eternal"}), 1 => json!({"k":"Past"}), 2 => json!({"k":"Present"}), 3 => json!({"k":"Future"}),
+                4 => json!({"k":"Fixed","n": rng.gen::<i64>().to_string()}),
+                _ => json!({"k":"Fixed","n": rng.gen_range(-1000..1000i64).to_string()}),
+            };
+            let tr: Vec<String> = if p == "Question" || p == "Quest" { vec![] } else { (0..rng.gen_range(0..=2)).map(|_| rand_unit(rng)).collect() };
+            let s = json!({"t":t,"p":p,"st":st,"tr":tr});
+            if k == 1 { json!({"kind":"sentence","v":s}) } else {
+                let b: Vec<String> = (0..rng.gen_range(0..=3)).map(|_| rand_unit(rng)).collect();
+                json!({"kind":"task","v":{"b":b,"s":s}})
+            }
+        }
+    };
+    (v, safe)
+}
+
 pub fn drive(kind: &str, seed: u64, count: usize, out: &str) {
     let mut w = std::io::BufWriter::new(std::fs::File::create(out).expect("create"));
     let mut rng = StdRng::seed_from_u64(seed);
@@ -138,6 +274,14 @@ pub fn drive(kind: &str, seed: u64, count: usize, out: &str) {
                 let fmt = FORMATS[i % 3];
                 let s = garbage(fmt, &mut rng);
                 writeln!(w, "{}", json!({"op":"parse_any","fmt":fmt,"s":s,"drive":true})).unwrap();
+            }
+        }
+        "values" => {
+            // seeded random well-formed enum values (names from a rich pool, random floats / stamps / intervals, depth up to 6)
+            for i in 0..count {
+                let fmt = FORMATS[i % 3];
+                let (v, safe) = rand_value(fmt, &mut rng);
+                writeln!(w, "{}", json!({"fmt":fmt,"v":v,"ascii_safe":safe,"rand":true,"exotic":EXOTIC.with(|c| c.get())})).unwrap();
             }
         }
         "names" => {
